@@ -845,6 +845,9 @@ def render_prog(p, mode="twin"):
     else:
         if p.id % 7 == 5:
             stmt = "dbg::<%s>(%s! { %s })" % (rty, call_name(p.id, kind), dsl)           # argument position
+        elif p.id % 7 == 0 and not any(needs_annotation(b[3]) for b in p.branches):
+            # no type expected from the surroundings: the chain alone determines the type
+            stmt = "let __res = %s! { %s }; dbg(__res)" % (call_name(p.id, kind), dsl)
         else:
             stmt = "let __res: %s = %s! { %s }; dbg(__res)" % (rty, call_name(p.id, kind), dsl)
         r_fn = "pub fn r_%d() -> String { dbg({ %s }) }" % (p.id, ref_body)
